@@ -52,15 +52,29 @@ class K04c(Harness):
     title = "line pipeline: tokens.create + blank/whitespace/comment/preprocessor/pragma classification of one line give back the line, inside and outside a delimited comment"
     functions = ("vsg.tokens", "vsg.vhdlFile.vhdlFile", "vsg.vhdlFile.classify.blank", "vsg.vhdlFile.classify.whitespace", "vsg.vhdlFile.classify.comment", "vsg.vhdlFile.classify.preprocessor", "vsg.vhdlFile.classify.pragma", "vsg.parser")
     stubs = ("design_file.tokenize and the post passes (token assignments, hierarchy, todo/aggregate tokens, code tags) are skipped: what runs is vhdlFile._processFile's per-line loop and get_lines",)
-    bounds = "a two-line file: concrete first line that does / does not open a delimited comment, second line = every string of N characters (N<=2 quick, <=3 thorough) over U+0000..U+00FF except LF/CR; default pragma patterns (symbolic regex matcher)"
+    bounds = "a two-line file: concrete first line that does / does not open a delimited comment, second line = every string of N characters (N<=2 quick, <=3 thorough) over U+0000..U+00FF except LF/CR, and 7 (12) templates of comment / string / character-literal delimiters with 2 (3) symbolic characters in between; default pragma patterns (symbolic regex matcher)"
     outside = "longer lines; interaction of three or more lines"
     assumptions = K04a.assumptions
 
+    TEMPLATES2 = ["/*{}*/ /*{}*/", "{}/*x*/{}", '"{}" "{}"', "--{}/*{}", "/*a*/{}/*{}", "*/{}/*{}*/", "x'{}'{}"]
+    TEMPLATES3 = ["/*{}*/{}/*{}*/", "{}/*{}*/{}", '"{}"{}"{}"', "'{}'{}'{}'", "{}--{}*/{}"]
+
     def params(self, tier):
-        return [{"N": n, "open": o} for n in ([0, 1, 2] if tier == "quick" else [0, 1, 2, 3]) for o in (False, True)]
+        out = [{"N": n, "open": o} for n in ([0, 1, 2] if tier == "quick" else [0, 1, 2, 3]) for o in (False, True)]
+        # longer lines: fixed delimiters with 2 (quick) / 3 (thorough) symbolic characters in between
+        for t in self.TEMPLATES2 + (self.TEMPLATES3 if tier == "thorough" else []):
+            for o in (False, True):
+                out.append({"template": t, "N": t.count("{}"), "open": o})
+        return out
 
     def run(self, eng, p):
-        line = eng.str("s", p["N"])
+        if "template" in p:
+            parts = p["template"].split("{}")
+            line = parts[0]
+            for i, rest in enumerate(parts[1:]):
+                line = line + eng.str("s%d" % i, 1) + rest
+        else:
+            line = eng.str("s", p["N"])
         first = "/* x" if p["open"] else "-- y"
         saved = (VFM.design_file, VFM.post_token_assignments, VFM.set_token_hierarchy_value, VFM.set_todo_tokens, VFM.set_aggregate_tokens, VFM.set_code_tags)
 
@@ -83,7 +97,12 @@ class K04c(Harness):
         return clauses
 
     def describe(self, values, p):
-        return {"first_line": "/* x" if p["open"] else "-- y", "second_line": "".join(chr(values.get("s[%d]" % i, 32)) for i in range(p["N"]))}
+        if "template" in p:
+            parts = p["template"].split("{}")
+            line = parts[0] + "".join(chr(values.get("s%d[0]" % i, 32)) + rest for i, rest in enumerate(parts[1:]))
+        else:
+            line = "".join(chr(values.get("s[%d]" % i, 32)) for i in range(p["N"]))
+        return {"first_line": "/* x" if p["open"] else "-- y", "second_line": line}
 
     def signature(self, values, p, detail):
         if detail.get("kind") == "exception":
@@ -103,7 +122,7 @@ from vsg.vhdlFile import utils as vf_utils
 class K04f(Harness):
     name = "K04f"
     prop = "C04"
-    props = ("C04", "C16")
+    props = ("C04", "C16", "C15")
     title = "read_vhdlfile returns every line of the file exactly once, for UTF-8 and legacy (ISO-8859-1) content, wherever the first non-ASCII byte sits relative to the read buffer"
     functions = ("vsg.vhdlFile.utils",)
     stubs = ("real files in a scratch directory under /verif/.scratch (the decoding is done by CPython's file object, not by proxies)",)
@@ -120,6 +139,9 @@ class K04f(Harness):
         crlf = eng.bool("crlf")
         final_nl = eng.bool("final_newline")
         lines = ["-- line %04d of a header comment that is long enough" % i for i in range(400)]
+        special = ["", "\x0c", "\x0b", "\x1c", "\x85", "\u2028"][eng.choose("special_char", 6)]
+        if special and (enc == "utf-8" or ord(special) < 256):
+            lines[3] = "-- page" + special + "break"
         text = ("\r\n" if crlf else "\n").join(lines) + (("\r\n" if crlf else "\n") if final_nl else "")
         if off is not None:
             k = len(text) - 3 if off == -1 else off
@@ -138,9 +160,21 @@ class K04f(Harness):
             with os.fdopen(fd, "wb") as f:
                 f.write(data)
             got, err = vf_utils.read_vhdlfile(path)
+            # the same bytes through the --stdin channel (sys.stdin as a text stream over them)
+            import io
+            import sys as _s
+
+            saved = vf_utils.sys
+            class _Sys:
+                stdin = io.TextIOWrapper(io.BytesIO(data), encoding=enc, newline=None)
+            vf_utils.sys = _Sys
+            try:
+                got_stdin, err2 = vf_utils.read_vhdlfile("stdin")
+            finally:
+                vf_utils.sys = saved
         finally:
             os.unlink(path)
-        return [("no_error", err is None), ("every_line_once", list(got) == want)]
+        return [("no_error", err is None), ("every_line_once", list(got) == want), ("C15:stdin_reads_the_same_lines", list(got_stdin) == list(got))]
 
     def describe(self, values, p):
         return {"encoding": ["utf-8", "iso-8859-1"][values.get("encoding", 0)], "offset_choice": values.get("offset"), "crlf": values.get("crlf"), "final_newline": values.get("final_newline")}
